@@ -1,7 +1,9 @@
-// instantiation TU for cxx2coq (C20): the decision logic of allocate / deallocate / pvIsEqual.
+// instantiation TU for cxx2coq (C20): the decision logic of allocate / deallocate / pvIsEqual, the constructors and the rebinding conversion.
 // The value type is an opaque struct so that sizeof(value_type) stays symbolic (section variable vsize).
 #include "momo/stdish/pool_allocator.h"
 struct VerifValue { char data[24]; };
+struct VerifOther { char data[40]; };
 namespace momo { namespace stdish {
 template class unsynchronized_pool_allocator<VerifValue>;
+template unsynchronized_pool_allocator<VerifValue>::operator unsynchronized_pool_allocator<VerifOther>() const noexcept;
 }}
